@@ -658,6 +658,10 @@ def tie_parse_error(chk, r, n, real_parse_errors):
             loc = None
         elif k < 0.25:
             loc = parser_types.SourceLocation()
+        elif k < 0.32:
+            # a location that has no position but knows it is synthetic (write_inference,
+            # symbol_resolver and synthetics._mark_as_synthetic make such locations)
+            loc = parser_types.SourceLocation(is_synthetic=True)
         else:
             a, b = r.randint(1, 9), r.randint(1, 9)
             loc = parser_types.SourceLocation((a, b), (a, b + r.randint(0, 4)), is_synthetic=r.random() < 0.1)
@@ -1094,7 +1098,8 @@ def run(tier):
 
 def _run(tier):
     chk = common.Check(PROP, tier, exes=[MODEL])
-    chk.cov["rule"] = ("one evaluation = one input through an entry point, or one model/real comparison; "
+    chk.cov["rule"] = ("one evaluation = one input through an entry point, or one model/real comparison, or "
+                       "(round 3) one node location of a real module IR checked by the IR-location oracle; "
                        "non-trivial & distinct = distinct (outcome class, normalised first error message) of the "
                        "exploration + distinct model answers of the FORMAT/PROCESS/QUEUE ties")
     chk.trusted += ["Python str.splitlines/repr as oracles for the model's re-implementations (tied by ops SPLITLINES/REPR)",
@@ -1128,6 +1133,7 @@ def _run(tier):
         timed("tie_path", drv.tie_path, chk, r, 200 if q else 2000)
         timed("tie_executables", drv.tie_executables, chk, r, 250 if q else 3000)
         timed("tie_locations", drv.tie_locations, chk, r, cases, 2500 if q else 30000, 400 if q else 5000)
+        timed("tie_module_ir", drv.tie_module_ir, chk, r, cases, 400 if q else 4000, 3000 if q else 30000)
         chk.extra["traces_validated_against_impl"] = sum(v["compared"] for v in chk.extra.get("tie", {}).values())
     timed("cli", explore_cli, chk, common.rng("C16-cli"), 7 if tier == "quick" else 150,
           [c for c in cases if c["kind"].split("/")[0] in ("boundary", "sem", "grammar", "mutate", "imports", "corpus", "soup")])
@@ -1188,6 +1194,21 @@ def replay(path):
         for name, rc, stderr, cmd in res:
             print("%s: exit %s\n%s" % (name, rc, stderr[-2000:]))
         return 0
+    if rec.get("node"):
+        # a finding of the IR-location oracle (tie_module_ir): re-run it on this input
+        class _Probe:
+            extra = {}
+
+            def count(self):
+                pass
+
+            def nontrivial(self, _k):
+                pass
+
+            def violation(self, _kind, ctx, **kw):
+                print("VIOLATES:", kw.get("key"), "-", ctx.get("observed"))
+        n = drv.tie_module_ir(_Probe(), None, [{"kind": "replay", "files": files, "main": main}], 1, 1000)
+        print("IR-location oracle: %d problem(s) on this tree" % n, _Probe.extra.get("module_ir_locations"))
     if rec.get("op"):
         print("op:", rec["op"][:500])
         print("model:", ask([rec["op"]])[0][:500])
